@@ -15,7 +15,7 @@ CLAIMED = {
             'distinct slice result plus odd spellings, index lists incl. empty/repeats/negatives, both '
             'keyword orders) is executed on the real sliceDimensions and compared bit-for-bit with an '
             'independent per-axis numpy.take / pointwise reference; zipped index lists also as numpy arrays (one '
-            'object shared by two dimensions) which must be unchanged afterwards; the string form slice_dim and '
+            'object shared by two dimensions) which must be unchanged afterwards; the string form slice_dim (also on a netCDF4.Dataset saved from the file, masks from _FillValue) and '
             'IOAPI files included. Exhaustive within the stated bounds.',
             'numpy is trusted; dimension lengths <=3; domain predicate of DESIGN 3.1 decides which '
             'raises are acceptable', 'DESIGN.md section 4 C02'),
@@ -68,7 +68,7 @@ CLAIMED = {
             'explicit-state breadth-first search over IOAPI operation sequences with the coherence invariant evaluated in every state',
             'BFS from 10 IOAPI seeds (gridded, 1x1x1x1, boundary, masked, disk-backed, 16-character name, a disk file '
             'whose VAR-LIST lost its trailing blanks (set-up state), GRIDDESC with and without CF variables, dates '
-            'beyond 2038) under a ~60-instance menu (copy with and without data, slice int/slice/list on every '
+            'beyond 2038) under a ~60-instance menu (copy with and without data, slice int/slice/list on every (boolean mask on TSTEP) '
             'standard dimension, the short names f.slice/f.subset/f.apply, subset, subset-exclude, renameVariable(s), '
             'a variable added by hand (set-up), eval, apply mean/max/diff/reverse/demean on every standard dimension, '
             'mask, stack in time, interpSigma linear/conserve, +) to depth 2 (quick) / 4 (thorough); every reached state must '
@@ -78,7 +78,7 @@ CLAIMED = {
     'C11': ('A', 'model_checking',
             'bounded-exhaustive enumeration of window combinations over ROW/COL/LAY/TSTEP on the real IOAPI slicer vs independent origin/level/calendar arithmetic',
             'Every IOAPI file of the universe (shapes up to 3x3x3x3, start instants crossing year end, leap day and '
-            'midnight, TSTEP 7.5 min / 30 min / 1 h / 24 h / 100 h, unevenly spaced flags, sources with a hand-added '
+            'midnight, TSTEP 7.5 min / 30 min / 1 h / 24 h / 100 h / 168 h, unevenly spaced flags, sources with a hand-added '
             'variable or without TFLAG) x every combination of contiguous windows given as positive int, negative '
             'int, numpy integer or any unit-stride slice spelling (incl. a negative start beyond the first cell) over '
             '1-2 (quick) / 1-4 (thorough) dimensions, plus strided TSTEP windows: XORIG/YORIG must move by first-index '
@@ -228,7 +228,7 @@ CLAIMED = {
             'exhaustive enumeration of open histories, each executed in a freshly forked pristine process, with every pool file probed after each history',
             'Pool of 35 files: every self-describing format (uamiv, lateral_boundary, ICARTT incl. DOS line endings '
             'and trailing blanks, netCDF3, netCDF4, IOAPI-netCDF, ARL, bpch) plus the indistinguishable '
-            'vertical_diffusivity/humidity pair, a 2-D uamiv file with header nz=0, two files of a reader family the '
+            'vertical_diffusivity/humidity pair, a 2-D uamiv file with header nz=0, a second uamiv and lateral_boundary file on another grid, two files of a reader family the '
             'user defines during the history, an unrecognised file and 3-byte files with recognisable extensions, '
             'each with its extension and extension-less, plus one path whose content changes. History alphabet: an '
             'auto-detecting open of every pool file, 9 opens with an explicitly named format, re-registration of 3 '
